@@ -264,6 +264,26 @@ func init() {
 			p, a := e.readerState(st, args[0].Terms[0])
 			return Val{Typ: rt, Terms: []*smt.Term{bvsub(c, a, p)}}
 		},
+		// sync/atomic on int32 cells: plain loads and stores under the sequential semantics
+		"sync/atomic.LoadInt32": func(e *Engine, f *frame, st *State, args []Val, rt types.Type, pos string) Val {
+			e.nilCheck(st, args[0], pos, "atomic.LoadInt32 of nil")
+			return e.load(st, args[0], types.Typ[types.Int32])
+		},
+		"sync/atomic.StoreInt32": func(e *Engine, f *frame, st *State, args []Val, rt types.Type, pos string) Val {
+			e.nilCheck(st, args[0], pos, "atomic.StoreInt32 to nil")
+			e.frameCheck(f, st, args[0], pos)
+			e.store(st, args[0], Val{Typ: types.Typ[types.Int32], Terms: args[1].Terms})
+			return Val{Typ: rt}
+		},
+		"sync/atomic.CompareAndSwapInt32": func(e *Engine, f *frame, st *State, args []Val, rt types.Type, pos string) Val {
+			c := e.C
+			e.nilCheck(st, args[0], pos, "atomic.CompareAndSwapInt32 on nil")
+			cur := e.load(st, args[0], types.Typ[types.Int32])
+			hit := c.Eq(cur.Terms[0], args[1].Terms[0])
+			e.frameCheck(f, st, args[0], pos)
+			e.store(st, args[0], Val{Typ: types.Typ[types.Int32], Terms: []*smt.Term{c.Ite(hit, args[2].Terms[0], cur.Terms[0])}})
+			return Val{Typ: rt, Terms: []*smt.Term{hit}}
+		},
 		"math.IsNaN": func(e *Engine, f *frame, st *State, args []Val, rt types.Type, pos string) Val {
 			return Val{Typ: rt, Terms: []*smt.Term{e.C.Op("fp.isNaN", smt.Bool, args[0].Terms[0])}}
 		},
